@@ -33,6 +33,7 @@ def varTyped (var : XmlVar) : Bool :=
   && var.elements.isEmpty && !var.tokens
   && (match var.clazz, var.types with
       | none, [.prim _] => true
+      | none, [.other _] => true      -- a converter type of `DEnv.other`
       | some k, [.cls k'] => k == k'
       | _, _ => false)
   && (match wrapperName var.toVarCore with
@@ -130,15 +131,23 @@ def poolOKj (Γ : Ctx) (fac : Factory) (k : ClassId) (x : Val) : Bool :=
 
 /-- a `QName` is written as its text; it is read back by `QNameConverter.deserialize` without
 prefix map, which accepts the Clark form of a valid URI / NCName pair (or a bare NCName) -/
-def qnameBack (e : BEnv) (p : PVal) : Bool :=
+def qnameBack (e : DEnv) (p : PVal) : Bool :=
   match p with
-  | .qname t => deOne e t (.prim .qname) [] == some (.qname t)
+  | .qname t => deOne e.toBEnv t (.prim .qname) [] == some (.qname t)
   | _ => true
 
-def itemOKj (e : BEnv) (ok : ClassId → Val → Bool) (Γ : Ctx) (fac : Factory) (var : XmlVar) (x : Val) : Bool :=
+/-- a value of a converter type, held as its lexical form, is canonical: the converter reads it
+and writes it back unchanged (what the `*_rt` theorems of the converter models give for
+`serialize v`) -/
+def leafBack (e : DEnv) (var : XmlVar) (p : PVal) : Bool :=
+  match var.types, p with
+  | [.other name], .str x => e.other name x == some x
+  | _, _ => false
+
+def itemOKj (e : DEnv) (ok : ClassId → Val → Bool) (Γ : Ctx) (fac : Factory) (var : XmlVar) (x : Val) : Bool :=
   match x with
   | .none => defaultNone var
-  | .prim p => var.types == [.prim (pvalType p)] && qnameBack e p
+  | .prim p => (var.types == [.prim (pvalType p)] && qnameBack e p) || leafBack e var p
   | .obj k' _ =>
     (match var.clazz with
      | some k => ok k' x && poolOKj Γ fac k x
@@ -161,7 +170,7 @@ def wildItemOKj (ok : ClassId → Val → Bool) (x : Val) : Bool :=
 /-- one item of a compound field: a primitive for which `find_value_choice` finds a choice that
 declares the primitive's own type (exact type first), or a model instance whose keys single out
 its class among the classes of the choices -/
-def compItemOKj (e : BEnv) (ok : ClassId → Val → Bool) (Γ : Ctx) (fac : Factory) (var : XmlVar) (x : Val) : Bool :=
+def compItemOKj (e : DEnv) (ok : ClassId → Val → Bool) (Γ : Ctx) (fac : Factory) (var : XmlVar) (x : Val) : Bool :=
   match x with
   | .prim p =>
     pvalType p != .qname &&
@@ -172,13 +181,13 @@ def compItemOKj (e : BEnv) (ok : ClassId → Val → Bool) (Γ : Ctx) (fac : Fac
   | _ => false
 
 /-- the value of a compound field -/
-def compValueOKj (e : BEnv) (ok : ClassId → Val → Bool) (Γ : Ctx) (fac : Factory) (var : XmlVar) (x : Val) : Bool :=
+def compValueOKj (e : DEnv) (ok : ClassId → Val → Bool) (Γ : Ctx) (fac : Factory) (var : XmlVar) (x : Val) : Bool :=
   match x with
   | .list items => items.all (compItemOKj e ok Γ fac var)
   | _ => false
 
 /-- the value of a typed field -/
-def typedValueOKj (e : BEnv) (ok : ClassId → Val → Bool) (Γ : Ctx) (fac : Factory) (var : XmlVar) (x : Val) : Bool :=
+def typedValueOKj (e : DEnv) (ok : ClassId → Val → Bool) (Γ : Ctx) (fac : Factory) (var : XmlVar) (x : Val) : Bool :=
   if var.listElement then
     (match x with
      | .list items => items.all (itemOKj e ok Γ fac var)
@@ -201,9 +210,9 @@ def wildValueOKj (ok : ClassId → Val → Bool) (var : XmlVar) (x : Val) : Bool
 
 /-- the value of a tokens field: a list of primitives of the item type, each of which survives
 `" ".join` / `str.split()` (strings: not empty, no white space) -/
-def tokensValueOKj (e : BEnv) (var : XmlVar) (x : Val) : Bool :=
+def tokensValueOKj (e : DEnv) (var : XmlVar) (x : Val) : Bool :=
   match var.types with
-  | [.prim t] => Xs.Bind.FN.tokensOK e t x
+  | [.prim t] => Xs.Bind.FN.tokensOK e.toBEnv t x
   | _ => false
 
 /-- the value of an `xs:anyAttribute` map: a mapping with pairwise distinct keys -/
@@ -212,14 +221,14 @@ def attrsValueOKj (x : Val) : Bool :=
   | .attrs m => decide ((m.map (·.1)).Nodup)
   | _ => false
 
-def valueOKj (e : BEnv) (ok : ClassId → Val → Bool) (Γ : Ctx) (fac : Factory) (var : XmlVar) (x : Val) : Bool :=
+def valueOKj (e : DEnv) (ok : ClassId → Val → Bool) (Γ : Ctx) (fac : Factory) (var : XmlVar) (x : Val) : Bool :=
   if var.isAttributes then attrsValueOKj x
   else if var.isWildcard then wildValueOKj ok var x
   else if var.tokens then tokensValueOKj e var x
   else if var.isElements then compValueOKj e ok Γ fac var x
   else typedValueOKj e ok Γ fac var x
 
-def fixedOK (e : BEnv) (var : XmlVar) (x : Val) : Bool :=
+def fixedOK (e : DEnv) (var : XmlVar) (x : Val) : Bool :=
   match validateFixed e.py var.toVarCore x with
   | .ok _ => true
   | .error _ => false
@@ -235,7 +244,7 @@ def defaultIs (f : FieldInfo) (x : Val) : Bool :=
 deep: field values have the declared types, `None` only where decoding `None` (dict factory)
 or a missing key (FILTER_NONE) gives `None` back, fields outside `__init__` hold their fixed
 value, nested instances are unambiguous in their candidate pool -/
-def valOKj (e : BEnv) (Γ : Ctx) (fac : Factory) : Nat → ClassId → Val → Bool
+def valOKj (e : DEnv) (Γ : Ctx) (fac : Factory) : Nat → ClassId → Val → Bool
   | 0, _, _ => false
   | n + 1, c, v =>
     match asObject v with
@@ -272,17 +281,17 @@ def memPool (Γ : Ctx) (k : ClassId) (x : Val) : Bool :=
   | .obj k' _ => (Γ.find k).isSome && (subclassesOf Γ k ++ [k]).contains k'
   | _ => false
 
-def itemOKu (e : BEnv) (ok : ClassId → Val → Bool) (Γ : Ctx) (var : XmlVar) (x : Val) : Bool :=
+def itemOKu (e : DEnv) (ok : ClassId → Val → Bool) (Γ : Ctx) (var : XmlVar) (x : Val) : Bool :=
   match x with
   | .none => defaultNone var
-  | .prim p => var.types == [.prim (pvalType p)] && qnameBack e p
+  | .prim p => (var.types == [.prim (pvalType p)] && qnameBack e p) || leafBack e var p
   | .obj k' _ =>
     (match var.clazz with
      | some k => ok k' x && memPool Γ k x
      | none => false)
   | _ => false
 
-def typedValueOKu (e : BEnv) (ok : ClassId → Val → Bool) (Γ : Ctx) (var : XmlVar) (x : Val) : Bool :=
+def typedValueOKu (e : DEnv) (ok : ClassId → Val → Bool) (Γ : Ctx) (var : XmlVar) (x : Val) : Bool :=
   if var.listElement then
     (match x with
      | .list items => items.all (itemOKu e ok Γ var)
@@ -292,7 +301,7 @@ def typedValueOKu (e : BEnv) (ok : ClassId → Val → Bool) (Γ : Ctx) (var : X
      | .list _ => false
      | _ => itemOKu e ok Γ var x)
 
-def valueOKu (e : BEnv) (ok : ClassId → Val → Bool) (Γ : Ctx) (fac : Factory) (var : XmlVar) (x : Val) : Bool :=
+def valueOKu (e : DEnv) (ok : ClassId → Val → Bool) (Γ : Ctx) (fac : Factory) (var : XmlVar) (x : Val) : Bool :=
   if var.isAttributes then attrsValueOKj x
   else if var.isWildcard then wildValueOKj ok var x
   else if var.tokens then tokensValueOKj e var x
@@ -300,7 +309,7 @@ def valueOKu (e : BEnv) (ok : ClassId → Val → Bool) (Γ : Ctx) (fac : Factor
   else typedValueOKu e ok Γ var x
 
 /-- `valOKj` without its per-instance ambiguity condition: only typing -/
-def valOKu (e : BEnv) (Γ : Ctx) (fac : Factory) : Nat → ClassId → Val → Bool
+def valOKu (e : DEnv) (Γ : Ctx) (fac : Factory) : Nat → ClassId → Val → Bool
   | 0, _, _ => false
   | n + 1, c, v =>
     match asObject v with
